@@ -132,18 +132,26 @@ def td_of(x):
 
 
 class World:
-    """A connection on in-memory brokers plus observation hooks."""
+    """A connection (in-memory brokers, or the real Redis broker on a fake server) plus observation hooks."""
 
-    def __init__(self, results=False, args_bucket=False):
+    def __init__(self, results=False, args_bucket=False, backend="mem"):
         from repid import Connection, InMemoryBucketBroker, InMemoryMessageBroker
-        self.broker = InMemoryMessageBroker()
+        self.backend = backend
+        if backend == "mem":
+            self.broker = InMemoryMessageBroker()
+        else:
+            from fakes import redis as fr
+            self.fr = fr
+            self.srv = fr.FakeServer(clock=lambda: vtime.current_clock().time())
+            self.broker = fr.mk_broker(self.srv)
         self.ab = InMemoryBucketBroker() if args_bucket else None
         self.rb = InMemoryBucketBroker(use_result_bucket=True) if results else None
         self.conn = Connection(self.broker, self.ab, self.rb)
         self.rec = None
 
     async def open(self, queues=("default",), record=True):
-        await self.conn.connect()
+        if self.backend == "mem":
+            await self.conn.connect()
         for q in queues:
             await self.broker.queue_declare(q)
         if record:
@@ -151,7 +159,25 @@ class World:
         return self
 
     def places(self, queue="default"):
-        return mem_places(self.broker, queue)
+        if self.backend == "mem":
+            return mem_places(self.broker, queue)
+        from types import SimpleNamespace
+        from repid.data._key import RoutingKey
+        out = {}
+        for i, pls in self.fr.redis_places(self.srv, queue).items():
+            for place, k, score in pls:
+                topic = None
+                for name, v in self.srv.kv.items():
+                    if name.startswith(f"m:{queue}:") and name.endswith(":" + i):
+                        topic = name.split(":")[3]
+                        h = {kk.decode(): vv.decode() for kk, vv in v.items()}
+                        msg = SimpleNamespace(key=RoutingKey(topic=topic, queue=queue, id_=i), payload=h.get("payload"),
+                                              parameters=self.broker.PARAMETERS_CLASS.decode(h["parameters"]) if "parameters" in h else None)
+                        out.setdefault(i, []).append((place, msg, score))
+                        break
+                else:
+                    out.setdefault(i, []).append((place, None, score))
+        return out
 
 
 def observe_consumers(broker):
